@@ -567,6 +567,63 @@ def fam_handshake(rng, n, tag="hs"):
         out.append(s)
     return out
 
+def fam_handshake_outage(rng, n, tag="hso"):
+    """C05: the network is down (both directions) from the moment the sessions are built, for anything from a
+    fraction of the notify delay to twice the disconnect timeout, or one side starts polling that late: the
+    handshake must complete once packets flow, and a connection that has only just become Running must not be
+    reported interrupted or disconnected on the strength of the time the handshake took"""
+    out = []
+    for i in range(n):
+        spect = rng.random() < 0.4
+        s = Scen("%s_%d" % (tag, i), players=2, window=rng.choice([0, 1, 8]), lat=rng.choice([5, 20, 45]), seed=rng.randrange(1 << 30),
+                 inputrun=2, expect=["nodisconnect", "nointerrupt"])
+        s.p2p(1, [0]); s.p2p(2, [1])
+        if spect:
+            s.spec(9, 1, 2)
+        T = rng.choice([300, 700, 1600, 1900, 2100, 2600, 4200])
+        late = rng.random() < 0.4
+        if not late:
+            for (a, b) in ((1, 2), (2, 1)) + (((1, 9), (9, 1)) if spect else ()):
+                s.link(a, b, outages=[(0, T)])
+        end = T + 4000
+        s.ticks(1, 0, end, 16)
+        s.ticks(2, T if late else 3, end, 16)
+        if spect:
+            s.ticks(9, T + 5 if late else 5, end, 16)
+        # lockstep / window 1 advance one frame per round trip: a modest floor, the point is "not wedged"
+        s.at(T + 1500, "mark")
+        s.at(end - 10, "progress", 1, 10, "C05")
+        s.at(end - 10, "progress", 2, 10, "C05")
+        out.append(s)
+    return out
+
+def fam_late_joiner_after_drop(rng, n, tag="ljd"):
+    """C12: three peers; peer 2 completes its handshake with peer 1 and then dies - peer 1 times it out, or drops it
+    with disconnect_player right away - BEFORE peer 3 has started its own handshake: once peer 3 has completed it
+    with peer 1, every remote of peer 1 is past the handshake and peer 1 must be Running (monitor
+    running-iff-all-synchronized).  Peer 3 never gets past its own handshake (peer 2 is gone), so it simulates
+    nothing: a third peer that runs with a different view of the dropped player is the recorded finding of C10
+    (survivor_view_gap>=1), not what this family is after."""
+    out = []
+    for i in range(n):
+        to = rng.choice([600, 1000, 2000])
+        s = Scen("%s_%d" % (tag, i), players=3, window=rng.choice([2, 8]), lat=rng.choice([5, 20]), seed=rng.randrange(1 << 30),
+                 timeout=to, notify=rng.choice([200, 500]), inputrun=2)
+        for k in range(3):
+            s.p2p(k + 1, [k])
+        t_leave = rng.randrange(500, 900)
+        how = rng.choice(["timeout", "disc"])
+        t0 = t_leave + (to + rng.choice([300, 800]) if how == "timeout" else rng.choice([200, 600]))
+        end = t0 + 3000
+        s.ticks(1, 0, end, 16)
+        s.ticks(2, 3, t_leave, 16)
+        s.ticks(3, t0, end, 16)
+        s.at(t_leave, "kill", 2)
+        if how == "disc":
+            s.at(t_leave + 20, "disc", 1, 1)
+        out.append(s)
+    return out
+
 def fam_handshake_late(rng, n, tag="hsl", expect=("repeat",)):
     """one peer starts polling one to three seconds after the other: the early peer's sync requests (one
     every 200 ms, each with a fresh nonce) pile up unanswered, are then answered all at once, and some of the
